@@ -55,12 +55,16 @@ def check(ctx, rep):
             if ok:
                 for a in args[1]:
                     wargs = a[3]
-                    okw = len(wargs) == 2 and wargs[0] == SELF and isinstance(wargs[1], tuple) and wargs[1][0] == "closure"
+                    # the referent is the executor: `self` in the constructor, or the parameter of a thread factory
+                    # function that receives the executor
+                    isx = len(wargs) == 2 and (wargs[0] == SELF or (isinstance(wargs[0], tuple) and wargs[0][0] == "param" and ("C:" + owner.key) in ctx.types.param_types.get((initfi.key, wargs[0][1]), ())))
+                    okw = isx and isinstance(wargs[1], tuple) and wargs[1][0] in ("closure", "func")
                     rep.ob("R-REFS-THREAD", "%s: weakref.ref(self, callback)" % owner.name, okw, "weakref built as %s" % [fmt(x) for x in wargs], where_of(initfi))
                     if okw:
-                        sub = it.closures[wargs[1][2]][0]
+                        sub = roles.closure_fn(wargs[1]) or prog.functions.get(wargs[1][1])
                         names = set(n.id for n in ast.walk(sub.node) if isinstance(n, ast.Name))
-                        rep.ob("R-REFS-THREAD", "%s: the weakref callback does not capture self" % owner.name, "self" not in names, "the callback refers to `self`: the weak reference's own callback keeps the executor alive, so it is never collected and the thread never exits", where_of(sub))
+                        xname = wargs[0][1]
+                        rep.ob("R-REFS-THREAD", "%s: the weakref callback does not capture self" % owner.name, xname not in names, "the callback refers to `self`: the weak reference's own callback keeps the executor alive, so it is never collected and the thread never exits", where_of(sub))
                         ps2, it2 = ctx.paths(sub, None, depth=0)
                         sets = [e for p2 in ps2 for e in p2.calls() if q.call_name(e) == "set"]
                         rep.ob("R-REFS-THREAD", "%s: the weakref callback wakes the worker" % owner.name, bool(sets), "when the executor is collected nothing wakes the thread", where_of(sub))
